@@ -42,6 +42,7 @@ func (c09) Gates(tier string, m map[string]int64) []rt.Gate {
 	gs := []rt.Gate{
 		rt.GateMin("stores with integers beyond 2^53 under collecting/comparing aggregates", m, "bigint_values", 100),
 		rt.GateMin("stores with integers around 2^53 under sum/avg", m, "mid_integer_values", 100),
+		rt.GateMin("float group values agreeing in six decimals", m, "close_float_group_values", 100),
 		rt.GateMin("filters that use a GROUP BY field by name", m, "group_field_named_in_where", 200),
 		rt.GateMin("stores whose keys contain NUL bytes (tuples colliding under a NUL separator)", m, "store_with_nul_bytes", 100),
 		rt.GateMin("aggregate statements judged", m, "judged", 2000),
@@ -127,8 +128,26 @@ func (k c09) Run(c *rt.Ctx) {
 	if r.Chance(1, 2) {
 		ng = 2
 	}
+	closeFloats := false
+	if floats && !implicit && r.Chance(1, 5) {
+		// float group values that agree in their first six decimals (or are the two zeros): equal
+		// values share a group, unequal ones do not, however they are rendered
+		close := []string{"0.1", "0.1000001", "0.10000001", "2.5", "0", "0.0", "0.0000001", "0.00000012", "2.5000001", "7.25"}
+		for i := range pairs {
+			pairs[i].V = close[r.Intn(len(close))]
+		}
+		closeFloats = true
+		if ng == 0 {
+			ng = 1
+		}
+		c.Rec.Inc("close_float_group_values")
+	}
 	var groups []*gen.Node
 	for i := 0; i < ng; i++ {
+		if closeFloats && i == 0 {
+			groups = append(groups, gen.Call("float", gen.Value()))
+			continue
+		}
 		if ng >= 2 && i < 2 && r.Chance(2, 3) {
 			// the colliding pair: (part0, part1) or (int(part0), int(part1))
 			if r.Chance(2, 3) {
